@@ -176,6 +176,12 @@ func (x *Exec) callFunc(st *State, fn *ssa.Function, args []Val, binds []Val, po
 			useContract = !spec.Inline
 		case ModeUnwind:
 			useContract = spec.Abstract
+			// `attr unwind_abstract <driver>...`: abstract only for the named unwinding drivers
+			for _, d := range strings.Fields(spec.Attrs["unwind_abstract"]) {
+				if d == x.Driver {
+					useContract = true
+				}
+			}
 		}
 		if x.Spec != nil && len(st.Frames) == 1 {
 			for _, n := range strings.Fields(x.Spec.Attrs["inline"]) {
@@ -411,6 +417,19 @@ func (x *Exec) applyContract(st *State, fn *ssa.Function, spec *contract.FuncSpe
 		env.vars["result"] = res
 		nres = -1
 	}
+	if spec.Attrs["fresh_object"] != "" && nres == 1 && x.Mode == ModeUnwind {
+		// the result points to a freshly allocated object whose fields are unknown
+		rt := sig.Results().At(0).Type()
+		elem := rt.Underlying().(*types.Pointer).Elem()
+		ref := x.newObject(st, elem)
+		x.freshSeq++
+		fv := freshVal(fmt.Sprintf("%s!%d", short(site), x.freshSeq), elem)
+		x.assumeTyped(st, fv, elem)
+		x.storeAt(st, classFor(elem), "", elem, ref, nil, fv)
+		res = VT{ref, rt}
+		env.vars["result"] = res
+		nres = -1
+	}
 	if fb := spec.Attrs["fresh_bitlist"]; fb != "" && nres == 1 && x.Mode == ModeUnwind {
 		// `attr fresh_bitlist <count|?>`: the result is a freshly allocated BitList whose contents
 		// are unknown (a new bit-array symbol); its length is the given expression or unknown
@@ -566,18 +585,45 @@ func (x *Exec) freshSliceResult(st *State, env *Env, attr string, rt types.Type,
 		x.fail("attr fresh_result needs: <len> <lo> <hi>")
 	}
 	ev := func(s string) *T {
+		if s == "?" {
+			return nil
+		}
 		e, err := contract.ParseExpr(s)
 		if err != nil {
 			x.fail("attr fresh_result: %v", err)
 		}
 		return env.evalInt(e)
 	}
+	lo, hi := ev(fields[1]), ev(fields[2])
+	et := rt.Underlying().(*types.Slice).Elem()
+	var symLen *T
+	if fields[0] != "?" {
+		if l := ev(fields[0]); !l.IsConst() {
+			symLen = l
+		}
+	}
+	if fields[0] == "?" || symLen != nil {
+		// unknown (or symbolic) length, unknown contents (within the element range)
+		ref := x.allocRef(st)
+		x.freshSeq++
+		ln := symLen
+		if ln == nil {
+			ln = term.Var(fmt.Sprintf("%s!%d.len", short(site), x.freshSeq), term.Int)
+			x.assumeOnce(term.And(term.Le(term.I(0), ln), term.Lt(ln, term.I(1<<31))))
+		}
+		class := "e:" + typeKey(et)
+		cs := comps(et)
+		a := x.heapArr(st, class, cs[0].sort)
+		arr := term.Var(fmt.Sprintf("%s!%d.elems", short(site), x.freshSeq), term.Arr(term.Int, cs[0].sort))
+		j := term.Bound("j", term.Int)
+		x.assumeOnce(term.ForallPat([]*T{j}, term.And(term.Le(lo, term.Select(arr, j)), term.Lt(term.Select(arr, j), hi)), [][]*T{{term.Select(arr, j)}}))
+		st.Heap[class] = term.Store(a, ref, arr)
+		return VSlice{ref, term.I(0), ln, ln, rt}
+	}
 	n, ok := ev(fields[0]).Int64()
 	if !ok {
 		x.fail("attr fresh_result: length is not concrete at %s", site)
 	}
-	lo, hi := ev(fields[1]), ev(fields[2])
-	et := rt.Underlying().(*types.Slice).Elem()
 	ref := x.newBacking(st, et)
 	class := "e:" + typeKey(et)
 	cs := comps(et)
